@@ -129,6 +129,9 @@ def parse_record(rid, scn, data, start, compiled, *, both=False, kind="parse", e
     obs = {"layout": project_layout(T), "res": observe_parse(T, t, data, start)}
     if compiled:
         obs["compiled"] = bool(T.__compiled__)
+        shape = plan_shape(T) if T.__compiled__ else None
+        if shape is not None and not any(f.get("anon") for f in t["fields"]):
+            obs["plan"] = shape
     if both:
         try:
             cs2 = load(scn["defs"], mode, not compiled)
@@ -414,3 +417,135 @@ def load_record(rid, scn, compiled):
         rec["loaded"] = False
         rec["exc"] = f"{type(e).__name__}: {e}"[:200]
     return rec
+
+
+
+# ------------------------------------------------------------------------------------------ C04: the C ABI as seen by ctypes
+CT = {"int8": "c_int8", "uint8": "c_uint8", "int16": "c_int16", "uint16": "c_uint16", "int32": "c_int32", "uint32": "c_uint32",
+      "int64": "c_int64", "uint64": "c_uint64"}
+
+
+def ctypes_of(t, packed, cache):
+    import ctypes
+
+    k = t["k"]
+    if k == "int":
+        return getattr(ctypes, CT[t["name"]])
+    if k == "float":
+        return {4: ctypes.c_float, 8: ctypes.c_double}[t["size"]]
+    if k == "char":
+        return ctypes.c_char
+    if k == "ptr":
+        return ctypes.c_void_p
+    if k == "arr":
+        return ctypes_of(t["elem"], packed, cache) * t["len"]["n"]
+    if k in ("struct", "union"):
+        key = (t["name"], packed)
+        if key not in cache:
+            base = ctypes.Structure if k == "struct" else ctypes.Union
+            ns = {"_fields_": [(f["name"], ctypes_of(f["type"], packed, cache)) for f in t["fields"]]}
+            if packed:
+                ns["_pack_"] = 1
+            cache[key] = type(t["name"], (base,), ns)
+        return cache[key]
+    raise ValueError(k)
+
+
+def ctypes_records(n, seed, first_id=0):
+    """Random declarations of C scalars, arrays, nested structs and unions laid out by ctypes (native / packed)."""
+    import ctypes
+
+    rnd = random.Random(seed)
+    out = []
+    names = list(CT)
+    cnt = [0]
+
+    def gen(depth, union=False):
+        cnt[0] += 1
+        fields = []
+        for i in range(rnd.randrange(1, 6)):
+            r = rnd.random()
+            if r < 0.5:
+                t = absyn.t_int(rnd.choice(names))
+            elif r < 0.6:
+                t = absyn.t_float(rnd.choice(["float", "double"]))
+            elif r < 0.68:
+                t = absyn.t_char()
+            elif r < 0.75:
+                t = absyn.t_ptr(absyn.t_int("uint8"))
+            elif r < 0.88 or depth == 0:
+                t = absyn.t_arr(absyn.t_int(rnd.choice(names)) if rnd.random() < 0.7 or depth == 0 else gen(depth - 1), absyn.L_fixed(rnd.randrange(1, 4)))
+                if rnd.random() < 0.2:
+                    t = absyn.t_arr(t, absyn.L_fixed(rnd.randrange(1, 3)))
+            else:
+                t = gen(depth - 1, union=rnd.random() < 0.3)
+            fields.append(absyn.field(f"m{i}", t))
+        return absyn.t_struct(f"c{cnt[0]}", fields, union)
+
+    for i in range(n):
+        t = gen(2, union=rnd.random() < 0.1)
+        packed = rnd.random() < 0.4
+        cls = ctypes_of(t, packed, {})
+        lay = {"size": ctypes.sizeof(cls), "align": ctypes.alignment(cls),
+               "offs": [getattr(cls, f["name"]).offset for f in t["fields"]] if t["k"] == "struct" else [-1] * len(t["fields"])}
+        out.append({"id": first_id + i, "kind": "ctypes", "type": t, "mode": {"endian": "<", "align": not packed, "ptr": ctypes.sizeof(ctypes.c_void_p)},
+                    "consts": {"_": 0}, "defs": absyn.render(t) + ("  /* ctypes, _pack_=1 */" if packed else "  /* ctypes, native */"),
+                    "obs": {"layout": lay}, "input": [], "start": 0})
+    return out
+
+
+
+# ------------------------------------------------------------------------------------------ C03: generated source -> plan shape
+import re as _re
+
+_SEEK = _re.compile(r"stream\.seek\(o \+ (\d+)\)")
+_ALIGN = _re.compile(r"stream\.seek\(-stream\.tell\(\) & \((\d+) - 1\), 1\)")
+_TAIL = _re.compile(r"stream\.seek\(-stream\.tell\(\) & \(cls\.alignment - 1\), 1\)")
+_READ = _re.compile(r"buf = stream\.read\((\d+)\)")
+_FIELD = _re.compile(r'r\["([^"]+)"\] = (.*)')
+
+
+def plan_shape(T):
+    """The operations of a generated reader, read off its source text (None for interpreted readers)."""
+    src = getattr(getattr(T._read, "__func__", None), "__source__", None)
+    if src is None:
+        return None
+    ops = []
+    block = None
+    for line in src.splitlines():
+        line = line.strip()
+        m = _SEEK.fullmatch(line)
+        if m:
+            ops.append({"op": "seek", "n": int(m.group(1)), "names": []})
+            block = None
+            continue
+        m = _ALIGN.fullmatch(line)
+        if m:
+            ops.append({"op": "align", "n": int(m.group(1)), "names": []})
+            block = None
+            continue
+        if _TAIL.fullmatch(line):
+            ops.append({"op": "tailalign", "n": 0, "names": []})
+            block = None
+            continue
+        if line == "bit_reader.reset()":
+            ops.append({"op": "bitreset", "n": 0, "names": []})
+            block = None
+            continue
+        m = _READ.fullmatch(line)
+        if m:
+            block = {"op": "block", "n": int(m.group(1)), "names": []}
+            ops.append(block)
+            continue
+        m = _FIELD.fullmatch(line)
+        if m:
+            name, rhs = m.group(1), m.group(2)
+            if "bit_reader.read(" in rhs:
+                ops.append({"op": "bits", "n": 0, "names": [name]})
+                block = None
+            elif "._read(stream, context=r)" in rhs:
+                ops.append({"op": "sub", "n": 0, "names": [name]})
+                block = None
+            elif block is not None:
+                block["names"].append(name)
+    return ops
